@@ -65,9 +65,20 @@ func session(r *sys.Result) (start, handoff uint64, ok bool) {
 	return 0, 0, false
 }
 
-func scenario(seed uint64, idx int, tier string, root string) []runRes {
+// scenarioX runs one scenario and returns, with its results, the encoding of the world and request it used: failures
+// are reported as "SCEN seed idx tier <encoding>", a line that keeps its meaning when the generators change.
+func scenarioX(s common.Scen, root string) ([]runRes, string) {
+	var enc string
+	rs := scenario(s.Seed, s.Idx, s.Tier, root, s.Fixed, &enc)
+	return rs, enc
+}
+
+func scenario(seed uint64, idx int, tier string, root string, fixed string, enc *string) []runRes {
 	rng := common.NewRng(seed*15485863 + uint64(idx))
-	sc := sys.GenScenario(rng)
+	sc := sys.GenScenarioOr(rng, fixed)
+	if enc != nil {
+		*enc = sc.Encode()
+	}
 	w := sc.W
 	dir := filepath.Join(root, fmt.Sprintf("sc%d", idx))
 	defer os.RemoveAll(dir)
@@ -207,9 +218,8 @@ func main() {
 	}
 	if lines := o.ReplayLines(); lines != nil {
 		for _, l := range lines {
-			f := strings.Fields(l)
-			if len(f) >= 4 && f[0] == "SCEN" {
-				emit(scenario(common.Atou(f[1]), common.Atoi(f[2]), f[3], root), l)
+			if psc, ok := common.ParseScen("SCEN", l); ok {
+				emit(scenario(psc.Seed, psc.Idx, psc.Tier, root, psc.Fixed, nil), l)
 			}
 		}
 		return
@@ -222,6 +232,7 @@ func main() {
 	scens := o.Scens("SCEN", n)
 	n = len(scens)
 	results := make([][]runRes, n)
+	encs := make([]string, n)
 	var wg sync.WaitGroup
 	sem := make(chan struct{}, 12)
 	for i := 0; i < n; i++ {
@@ -230,11 +241,11 @@ func main() {
 		go func(i int) {
 			defer wg.Done()
 			defer func() { <-sem }()
-			results[i] = scenario(scens[i].Seed, scens[i].Idx, scens[i].Tier, filepath.Join(root, fmt.Sprintf("k%d", i)))
+			results[i], encs[i] = scenarioX(scens[i], filepath.Join(root, fmt.Sprintf("k%d", i)))
 		}(i)
 	}
 	wg.Wait()
 	for i, rs := range results {
-		emit(rs, scens[i].String())
+		emit(rs, common.Scen{Seed: scens[i].Seed, Idx: scens[i].Idx, Tier: scens[i].Tier, Fixed: encs[i]}.String())
 	}
 }
